@@ -8,6 +8,7 @@ R-C07-4  range guard: for every statement of the batch and every Some promise, `
 R-C07-5  = R-C17-3 for RangeStatement::init: the promise vector (and the commitments) a statement holds are the caller's, unadjusted --
          prover, transcript and verifier all read that field, so a constructor that rewrites it changes what acceptance establishes
 """
+import re
 from bpsa.facts import callee_decl, callee_name
 from bpsa.normal import canon
 from bpsa.terms import walk, short, TERM_IDX
@@ -80,7 +81,7 @@ def _run(ctx):
             every_promise = any('minimum_value_promises' in f and not any(b in f for b in ('skip(', 'take(', 'rev(')) and
                                 ('each(p1' in f or 'p1[idx(' in f) and "p1['first']" not in f and 'p1[0]' not in f for f in fa)
             # the only condition on the path to the test is the `bits < 64` half of the guard itself
-            only_bits = unconditional(r, lambda x: (x[0] == 'cmp' and x[1] == 'Le' and x[3].isdigit() and 'gens_capacity' in x[2]) or
+            only_bits = unconditional(r, lambda x: (x[0] == 'cmp' and x[1] == 'Le' and x[3].isdigit() and _is_bits(x[2])) or
                                       (x[0] == 'succ' and 'minimum_value_promises' in x[1]))        # the test applies to Some(promise) only
             rep.check(every_stmt and every_promise and only_bits and r['eff'] != 'bypass', 'R-C07-4', 'R-C07-4/range-guard/quantifier',
                       'the promise range guard covers every statement of the batch and every Some promise', 'the promise range guard ranges over %s' % fa, ctx.where(cons, r['guard'].bb))
@@ -112,9 +113,18 @@ def _run(ctx):
             else:
                 s = a[2][a[2].rindex(' Shr ') + 5:-1]
                 ks = [x for x in r['ctx'] if x[0] == 'cmp' and x[1] == 'Le' and x[3].isdigit()]
-                good = len(ks) == 1 and ks[0][3] == '63' and ks[0][2] == s and 'gens_capacity' in s
+                good = len(ks) == 1 and ks[0][3] == '63' and ks[0][2] == s and _is_bits(s)
                 rep.check(good, 'R-C07-4', 'R-C07-4/range-guard/constants', 'promise guard is `bits < 64 && (promise >> bits) > 0`',
                           'promise guard shifts by `%s` under %s; expected a shift by the bit length guarded by `bits < 64`' % (s, ks), ctx.where(cons, r['guard'].bb))
+
+
+_BITS = re.compile(r"^(each\(p1\)|p1\[[^\]]*\])(<skip>)?\.generators\.bp_gens\.gens_capacity(<skip>)?$")
+
+
+def _is_bits(s):
+    """the bit length of a statement of the batch (all equal, R-C03): the field itself, not a quantity computed from it such as
+    commitments * bit length"""
+    return bool(_BITS.match(s))
 
 
 def check_h_scalar(ctx, v):
